@@ -116,12 +116,9 @@ def generate(rng, tier):
             seen.add(k)
             uniq.append(v)
     vars_ = uniq
-    if (g.chance(0.25) and cfg['cls'] == 'OFF'
-            and 'press' not in cfg.get('fluid', [])
-            and 'Tdown4' not in cfg.get('extra_inputs', [])):
-        # first entry of the first call, so that no built-in of an earlier
-        # call has been computed with the default pressure
-        vars_ = [{'custom': 'press'}] + vars_
+    shadow = (g.chance(0.25) and cfg['cls'] == 'OFF'
+              and 'press' not in cfg.get('fluid', [])
+              and 'Tdown4' not in cfg.get('extra_inputs', []))
     ests = []
     for _ in range(g.randint(1, 4)):
         ests.append({'custom': g.pick(sorted(CUSTOM_EST))} if g.chance(0.3)
@@ -138,6 +135,14 @@ def generate(rng, tier):
     cuts = sorted(g.sample(range(1, len(vars_)), min(ncalls - 1,
                                                       len(vars_) - 1))) \
         if len(vars_) > 1 and ncalls > 1 else []
+    if shadow:
+        # anywhere in the FIRST call (custom variables are defined before any
+        # built-in of that call is computed, whatever the order in the list);
+        # not in a later call, where earlier built-ins would already have
+        # been computed with the default pressure
+        pos = g.randint(0, cuts[0] if cuts else len(vars_))
+        vars_.insert(pos, {'custom': 'press'})
+        cuts = [c + 1 for c in cuts]
     groups, prev = [], 0
     for c in cuts + [len(vars_)]:
         groups.append(list(range(prev, c)))
@@ -467,8 +472,8 @@ def _check_table(run, cfg, worlds, order, tkey, tval, data, bad, tr):
             return 0
     for key in sorted(worlds[0].data):
         for r, k in enumerate(srt):
-            if not np.array_equal(np.asarray(data[key][r]),
-                                  worlds[k].data[key]):
+            if digest(np.asarray(data[key][r])) != digest(
+                    np.asarray(worlds[k].data[key])):     # NaN-safe, bytewise
                 bad('input_column_not_preserved', f'input column {key!r} '
                     f'row {r} does not hold step {k}\'s input', last)
                 return 0
@@ -509,7 +514,8 @@ def _check_table(run, cfg, worlds, order, tkey, tval, data, bad, tr):
                 want = fn(np.asarray(data[sk][r]))
                 got = data[f'{sk}_{en}'][r]
                 compared += 1
-                if not (np.asarray(got) == np.asarray(want)).all():
+                if not np.array_equal(np.asarray(got), np.asarray(want),
+                                      equal_nan=True):
                     bad(f'estimate:{en}', f'{sk}_{en} row {r} = {got!r} but '
                         f'{en}({sk} row {r}) = {want!r}', last)
                     return compared
